@@ -28,7 +28,15 @@ type ledgerT struct {
 	base int // absolute index of buf[0]
 	buf  []byte
 	used []bool
+	// dup: issued by a run whose stream seed had occurred before in this process
+	// (rapid repeats seeds): the harness itself issued these values twice, so they
+	// neither explain a field nor prove a reuse. Such a run does not consult the
+	// ledger either (ledgerOn).
+	dup []bool
 }
+
+// ledgerOn: the current run's stream seed is new to this process.
+var ledgerOn bool
 
 var ledger ledgerT
 
@@ -36,15 +44,25 @@ var ledger ledgerT
 // its call, i.e. the library under test buffers randomness.
 var pooledSeen bool
 
+// bulkSeen: some call of this process made a single request of bulkMin bytes or more.
+var bulkSeen bool
+
+// runsStarted counts the runs of this process.
+var runsStarted uint64
+
 func (l *ledgerT) end() int { return l.base + len(l.buf) }
 
 func (l *ledgerT) add(b []byte) {
 	l.buf = append(l.buf, b...)
 	l.used = append(l.used, make([]bool, len(b))...)
+	for range b {
+		l.dup = append(l.dup, !ledgerOn)
+	}
 	if len(l.buf) > ledgerKeep+ledgerTrim {
 		drop := len(l.buf) - ledgerKeep
 		l.buf = append(l.buf[:0], l.buf[drop:]...)
 		l.used = append(l.used[:0], l.used[drop:]...)
+		l.dup = append(l.dup[:0], l.dup[drop:]...)
 		l.base += drop
 	}
 }
@@ -80,7 +98,7 @@ func (l *ledgerT) find(v []byte, before int) (at int, state int) {
 	if hi > len(l.buf) {
 		hi = len(l.buf)
 	}
-	if len(v) == 0 || hi < len(v) {
+	if len(v) == 0 || hi < len(v) || !ledgerOn {
 		return 0, ledgerNone
 	}
 	state = ledgerNone
@@ -90,6 +108,14 @@ func (l *ledgerT) find(v []byte, before int) (at int, state int) {
 			break
 		}
 		a := l.base + pos + i
+		isDup := false
+		for k := pos + i; k < pos+i+len(v); k++ {
+			isDup = isDup || l.dup[k]
+		}
+		if isDup {
+			pos += i + 1
+			continue
+		}
 		if !l.usedAny(a, a+len(v)) {
 			at, state = a, ledgerFresh
 		} else if state == ledgerNone {
